@@ -20,6 +20,7 @@ import (
 	vesttypes "github.com/chain4energy/c4e-chain/x/cfevesting/types"
 	"github.com/cosmos/cosmos-sdk/store/prefix"
 	sdk "github.com/cosmos/cosmos-sdk/types"
+	sdkversion "github.com/cosmos/cosmos-sdk/version"
 	authtypes "github.com/cosmos/cosmos-sdk/x/auth/types"
 	vestingtypes "github.com/cosmos/cosmos-sdk/x/auth/vesting/types"
 	upgradetypes "github.com/cosmos/cosmos-sdk/x/upgrade/types"
@@ -348,7 +349,21 @@ func runUpgradeCase(ta *TestApp, seed uint64, idx int, rep *Report, profile stri
 			ctx.KVStore(app.GetKey(mintertypes.StoreKey)).Delete(mintertypes.ParamsKey)
 			ctx.KVStore(app.GetKey(distrtypes.StoreKey)).Delete(distrtypes.ParamsKey)
 			ctx.KVStore(storeKey).Delete(vesttypes.ParamsKey)
-			app.UpgradeKeeper.ApplyUpgrade(ctx, upgradetypes.Plan{Name: v120.UpgradeName, Height: ctx.BlockHeight()})
+			ectx := ctx.WithEventManager(sdk.NewEventManager())
+			app.UpgradeKeeper.ApplyUpgrade(ectx, upgradetypes.Plan{Name: v120.UpgradeName, Height: ctx.BlockHeight()})
+			// C11: what the upgrade block emits is part of what replicas must agree on; state-compatible builds differ in their build
+			// metadata (the version string linked into the binary), so none of it may appear in the events
+			if marker := sdkversion.Version; marker != "" {
+				leak := ""
+				for _, ev := range ectx.EventManager().Events() {
+					for _, at := range ev.Attributes {
+						if strings.Contains(string(at.Value), marker) || strings.Contains(string(at.Key), marker) {
+							leak = fmt.Sprintf("event %s attribute %s = %s", ev.Type, at.Key, at.Value)
+						}
+					}
+				}
+				rep.Eval("C11.upgrade_events_do_not_carry_build_metadata", leak == "", idx, 1, "the binary's version string appears in an event of the upgrade block: "+leak)
+			}
 			mpAfter, dpAfter := app.CfeminterKeeper.GetParams(ctx), app.CfedistributorKeeper.GetParams(ctx)
 			mpa, _ := mpAfter.Marshal()
 			mpb, _ := mp.Marshal()
